@@ -338,6 +338,12 @@ pub(in crate::sql) fn except(
         // (all columns of the relation, not only those that survived prune_inputs)
         let bottom = with.original_cids.clone();
 
+        // join_cond and filter must consist of equalities only: any other
+        // conjunct would be lost when both are replaced by EXCEPT
+        if !only_equals(join_cond) || !only_equals(filter) {
+            continue;
+        }
+
         // join_cond must be a join over all columns
         // (this could be loosened to check only the relation key)
         let (join_left, join_right) = collect_equals(join_cond)?;
@@ -429,6 +435,12 @@ pub(in crate::sql) fn intersect(
         let bottom = with.original_cids.clone();
         let top = ctx.anchor.determine_select_columns(&res[0..res.len() - 1]);
 
+        // join_cond must consist of equalities only: any other conjunct would
+        // be lost when the join is replaced by INTERSECT
+        if !only_equals(join_cond) {
+            continue;
+        }
+
         // join_cond must be a join over all columns
         // (this could be loosened to check only the relation key)
         let (left, right) = collect_equals(join_cond)?;
@@ -504,6 +516,18 @@ fn all_null(exprs: Vec<&Expr>) -> bool {
     exprs
         .iter()
         .all(|e| matches!(e.kind, ExprKind::Literal(Literal::Null)))
+}
+
+/// True if expr is `a == b` or a conjunction of such comparisons, i.e. if
+/// [collect_equals] does not skip any part of it.
+fn only_equals(expr: &Expr) -> bool {
+    match &expr.kind {
+        ExprKind::Operator { name, args } if name == "std.eq" && args.len() == 2 => true,
+        ExprKind::Operator { name, args } if name == "std.and" && args.len() == 2 => {
+            only_equals(&args[0]) && only_equals(&args[1])
+        }
+        _ => false,
+    }
 }
 
 /// Converts `(a == b) and ((c == d) and (e == f))`
